@@ -329,7 +329,7 @@ def gen_C13(rng, tier):
 
 
 def gen_C12(rng, tier):
-    out = []
+    out = torn_tail_battery(rng)      # accessors after a torn-tail repair (several sections lost)
     acc = ["len", "is_empty", "range", "last_line", "payload_size"]
     # the smallest series: empty, one line, two lines, each seen again after a reopen
     for p in [0, 1, 2, 3, 4, 8, 40]:
